@@ -369,6 +369,7 @@ proof fn lemma_wakeup_init<E>(s: Sys<E>)
 {}
 //@endlemma
 
+//@auto_helpers src/chunker.rs rules=R4,T_chunk
 //@canary_false
 } // verus!
 fn main() {}
